@@ -456,6 +456,9 @@ pub enum Age {
     HugeSecs,
     /// nanos >= 10^9 (foreign)
     BadNanos,
+    /// the last seconds a SystemTime can hold (i64::MAX minus 0, 1 or 36500 days): parses, lies in the
+    /// future (foreign), and overflows as soon as anything is added to it
+    NearMaxSecs(u8),
     /// one of four fixed fresh instants (whole seconds): many entries share an identical `last_seen`,
     /// as in a file written in one go or by a coarse clock
     FreshTie(u8),
@@ -541,6 +544,7 @@ pub fn render_planted(f: &PlantedFile, cfg: &Cfg, n_peers: usize, now: SystemTim
                 Age::HugeSecs => (u64::MAX, 999_999_999),
                 Age::BadNanos => (now_s - 30, 4_000_000_000),
                 Age::FreshTie(k) => (now_s - 100 - 60 * (k % 4) as u64, 0),
+                Age::NearMaxSecs(k) => (i64::MAX as u64 - [0u64, 86_400, 86_399, 36_500 * 86_400][(k % 4) as usize], 0),
             };
             list.push(json!({
                 "addr": text,
@@ -655,6 +659,7 @@ pub fn dirty_file_strategy() -> BoxedStrategy<PlantedFile> {
         2 => any::<u16>().prop_map(Age::Expired),
         1 => Just(Age::Epoch),
         3 => (0u8..4).prop_map(Age::FreshTie),
+        1 => (0u8..4).prop_map(Age::NearMaxSecs),
         2 => any::<u16>().prop_map(Age::Future),
         1 => Just(Age::HugeSecs),
         1 => Just(Age::BadNanos),
